@@ -1,5 +1,6 @@
 // Common harness skeleton: case execution with recording, replay mode, rapidcheck mode.
 #pragma once
+#include <ctime>
 #include "rcgen.hpp"
 #include <sys/wait.h>
 
@@ -41,10 +42,14 @@ struct Harness {
     }
     // rapidcheck loop: gen draws a case from rc generators
     void rc_loop(const std::string &desc, std::function<J()> gen) {
+        // shrinking budget: after 80 failing executions, or 300 s after the first failure, remaining shrink candidates are accepted untested,
+        // which ends the shrink; the last recorded failure is the (partially) shrunk case.  Time never decides pass/fail of a case.
+        int nfail = 0; time_t first_fail = 0;
         rc::check(desc, [&]() {
             J c = gen();
+            if (nfail >= 80 || (nfail && time(nullptr) - first_fail > 300)) return;
             std::string why = exec(c);
-            if (!why.empty()) RC_FAIL(why);
+            if (!why.empty()) { if (!nfail++) first_fail = time(nullptr); RC_FAIL(why); }
         });
     }
     int finish() {
